@@ -45,6 +45,9 @@ def connected_graph(rng, n, kind):
     for i in range(n - 1):
         A[i, i + 1] = rng.uniform(0.2, 1.0)      # a path keeps it connected
     A = A + A.T
+    if rng.random() < 0.5:
+        # self-weights: an arbitrary symmetric positive-weight graph may have a non-zero diagonal
+        A[np.diag_indices(n)] = rng.uniform(0.1, 1.0, n) * (rng.random(n) < 0.7)
     return scipy.sparse.csr_matrix(A), rng.normal(size=(n, 3)).astype(np.float32)
 
 
